@@ -511,7 +511,11 @@ class World:
             "SubprocessError": _subprocess.SubprocessError, "TimeoutExpired": _subprocess.TimeoutExpired,
             "CompletedProcess": lambda args, returncode, stdout=None, stderr=None: Obj("CompletedProcess", args=args, returncode=returncode, stdout=stdout, stderr=stderr),
         }, lenient=False)
-        json_mod = Module("json", {"dumps": self._json_dumps, "loads": json.loads, "JSONDecodeError": json.JSONDecodeError}, lenient=False)
+        json_mod = Module("json", {"dumps": self._json_dumps, "loads": json.loads, "JSONDecodeError": json.JSONDecodeError,
+                                   "dump": self._json_dump}, lenient=False)
+        io_mod = Module("io", {"StringIO": __import__("io").StringIO}, lenient=False)
+        textwrap_mod = Module("textwrap", {n: getattr(__import__("textwrap"), n) for n in ("dedent", "indent", "fill", "wrap", "shorten")})
+        string_mod = Module("string", {n: getattr(__import__("string"), n) for n in ("ascii_letters", "ascii_lowercase", "ascii_uppercase", "digits", "whitespace", "punctuation")})
         dataclasses_mod = Module("dataclasses", {"asdict": self._asdict, "astuple": lambda o: tuple(self._asdict(o).values()),
                                                  "dataclass": Opaque("dataclass"), "field": Opaque("field"),
                                                  "fields": lambda o: [Obj("Field", name=n) for n, _ in ev._dataclass_fields(o._cls if isinstance(o, Obj) else o.name)],
@@ -542,7 +546,7 @@ class World:
             "json": json_mod, "dataclasses": dataclasses_mod, "platform": platform_mod, "importlib": importlib_mod,
             "importlib.metadata": metadata_mod, "collections": collections_mod, "itertools": itertools_mod, "functools": functools_mod,
             "operator": operator_mod, "fnmatch": fnmatch_mod, "re": re_mod, "argparse": self.argparse.module(), "typing": typing_mod,
-            "contextlib": contextlib_mod, "shlex": shlex_mod, "posixpath": ospath,
+            "contextlib": contextlib_mod, "shlex": shlex_mod, "posixpath": ospath, "io": io_mod, "textwrap": textwrap_mod, "string": string_mod,
             "bisect": Module("bisect", {"insort": self._insort, "insort_right": self._insort, "insort_left": lambda s, x, **k: self._insort(s, x, left=True)}, lenient=False),
         })
         # the pipeline
@@ -610,16 +614,36 @@ class World:
             return json.dumps(obj, **kw)
         return json.dumps(obj, default=self.ev.wrap_native(d), **kw)
 
-    def _open(self, path, mode="r", *a, **k):
+    def _json_dump(self, obj, fp, **kw):
+        txt = self._json_dumps(obj, **kw)
+        if isinstance(fp, Obj) and fp.__dict__.get("_stream"):
+            (self.ev.stdout if fp._stream == "stdout" else self.ev.stderr).append(txt)
+        elif hasattr(fp, "write") and not isinstance(fp, Obj):
+            fp.write(txt)
+        else:
+            raise Unsupported("json.dump to an unmodelled file")
+
+    def _open(self, path, mode="r", buffering=-1, encoding=None, errors=None, newline=None, **k):
+        """Files of the virtual tree hold text; on "disk" they are its UTF-8 bytes.  Reading decodes them the way the
+        real open() would: requested codec and error handler (the default codec is taken to be UTF-8), universal
+        newlines unless newline= says otherwise."""
         if any(c in mode for c in "wax+"):
             raise Unsupported("open() for writing")
-        text = self.vfs.read(str(path))
+        data = self.vfs.read(str(path)).encode("utf-8")
         if "b" in mode:
-            text = text.encode()
+            text = data
+        else:
+            try:
+                text = data.decode(encoding or "utf-8", errors or "strict")
+            except LookupError as e:
+                raise Raised(e)
+            if newline is None:
+                text = text.replace("\r\n", "\n").replace("\r", "\n")
         f = Obj("TextIOWrapper", name=str(path))
+        nl = b"\n" if isinstance(text, bytes) else "\n"
         it = iter(text.splitlines(True))
         f.__dict__["_native"] = {"read": lambda *a: text, "readlines": lambda: text.splitlines(True), "close": lambda: None,
-                                 "__enter__": lambda: f, "__exit__": lambda *a: None, "readline": lambda: next(it, "")}
+                                 "__enter__": lambda: f, "__exit__": lambda *a: None, "readline": lambda: next(it, nl[:0])}
         f.__dict__["_native_iter"] = lambda: text.splitlines(True)
         return f
 
@@ -777,6 +801,8 @@ class World:
             else:
                 out.crash = ev.py_repr(v) if isinstance(v, Obj) else repr(v)
                 out.crash_value = v
+                if "<opaque" in out.crash:
+                    out.unsupported = f"the run dies on a value the stub world does not model: {out.crash}"
         except Unsupported as e:
             out.unsupported = str(e)
         except RecursionError:
